@@ -38,5 +38,7 @@ try:
 finally:
     subprocess.run(["git", "-C", "/repo", "worktree", "remove", "--force", wt])
     # the replays written for a mutant are not witnesses against /repo: drop them
-    subprocess.run(["git", "-C", "/verif", "clean", "-fdq", "replays"], check=False)
+    for d in os.listdir("/verif/replays"):
+        if d != "findings":
+            shutil.rmtree(os.path.join("/verif/replays", d), ignore_errors=True)
     subprocess.run(["git", "-C", "/verif", "checkout", "--", "evidence"], check=False)
